@@ -869,7 +869,7 @@ def smtp_check(sc, cfg, obs, info):
             wire_end = starts[i + 1] if i + 1 < len(cmds) else len(full)
             acc = set(s for s in model.states if s[0] and s[3])
             ref = set(s for s in model.states if not (s[0] and s[3]))
-            if acc and fault_at is not None and fault_at == opens and (cls == 4 or not ref):
+            if acc and fault_at is not None and fault_at == opens and (cls != 5 or not ref):
                 # the queue program could not be started (pipe/fork failure): resource trouble => temporary, nothing queued,
                 # no 354, and the transaction is over; what the client pipelined as data is read as commands
                 opens += 1
@@ -1143,3 +1143,30 @@ def fake_received(proto, peer=b"unknown", ip=b"unknown", local=b"unknown", helo=
     date = b"%d %s %d %02d:%02d:%02d -0000\n" % (tm.tm_mday, MONTHS[tm.tm_mon - 1], tm.tm_year, tm.tm_hour, tm.tm_min, tm.tm_sec)
     return (b"Received: from " + peer + (b" (HELO " + helo + b")" if helo is not None else b"") + b" (" + ip + b")\n  by " + local +
             b" with " + proto + b"; " + date)
+
+
+# ----------------------------------------------------------------------------------------------- search budget
+
+def round_plan(ctx):
+    """The Hypothesis part runs in rounds of fixed size with seeds derived from (VERIF_SEED, worker, round): the sequence of
+    scenarios is a pure function of the seed; only *how many* rounds are run adapts to the machine (the sandbox is shared and its
+    load varies by a factor of three), between a fixed minimum and maximum, so that the tier keeps its wall-clock budget
+    (quick 60-150 s, thorough 10-25 min).  The clock never enters a verdict."""
+    if getattr(ctx, "only", None) and "fixedrounds" in ctx.only:
+        return {"size": 500, "min": 4, "max": 4, "deadline": None}
+    if ctx.quick:
+        return {"size": 400, "min": 3, "max": 60, "deadline": ctx.t0 + 68}
+    return {"size": 2000, "min": 4, "max": 400, "deadline": ctx.t0 + 15 * 60}
+
+
+def search_rounds(strategy, runfn, seed, stats, plan):
+    rounds = 0
+    for rnd in range(plan["max"]):
+        if rnd >= plan["min"] and (plan["deadline"] is None or time.time() >= plan["deadline"]):
+            break
+        vlib.hyp_search(strategy, runfn, plan["size"], vlib.subseed(seed, "round", rnd), stats)
+        rounds += 1
+        if stats.violations:
+            break
+    stats.cls("hypothesis_rounds", rounds)
+    stats.cls("hypothesis_examples_planned", rounds * plan["size"])
